@@ -28,6 +28,7 @@ EXTENDS Catalog
 
 CONSTANTS MeshSel,       \* subset of 1..Len(MeshList)
           RouteSel,      \* subset of Routes
+          ThinMeshes,    \* meshes on which only one slice of the size-independent knobs is generated (like m.big)
           Mech           \* "copies": a decoder works on its own copy of the input (the specification);
                          \* "aliases": it decodes platform-integer tables in place (shown to violate InputKept)
 
@@ -494,6 +495,11 @@ AllDialectsOf(m, route) ==
       [] route = "geo"       -> GeoDs(m)
       [] route = "verts"     -> VertsDs(m)
 DialectsOf(m, route) == IF m.big THEN { d \in AllDialectsOf(m, route) : ThinOK(route, d) } ELSE AllDialectsOf(m, route)
+\* the full knob product on the meshes of the core set; the thin slice on big meshes and on the additional
+\* (rotated / cut) variants a deeper tier adds
+DialectsFor(i, route) == IF MeshList[i].big \/ i \in ThinMeshes
+                         THEN { d \in AllDialectsOf(MeshList[i], route) : ThinOK(route, d) }
+                         ELSE AllDialectsOf(MeshList[i], route)
 
 StoredSrc(m, route, d) ==
     CASE route = "ugrid"     -> UgridStored(m, d)
@@ -663,7 +669,7 @@ Init == /\ mi \in MeshSel
         /\ (route = "mesh" \/ Applies(MeshList[mi], route))
         /\ d = NoD /\ nd = 0 /\ inp = NoD /\ outs = <<>> /\ ro = "-"
 Choose == /\ d = NoD /\ route # "mesh"
-          /\ d' \in DialectsOf(M, route)
+          /\ d' \in DialectsFor(mi, route)
           /\ ro' \in FirstChoices(route, d')
           /\ inp' = StoredSrc(M, route, d')
           /\ UNCHANGED << mi, route, nd, outs >>
